@@ -10,7 +10,8 @@ where
         usize::try_from(n).map_err(|e| io::Error::new(io::ErrorKind::InvalidData, e))
     })?;
 
-    let mut intervals = Vec::with_capacity(interval_count);
+    // The count is read from the stream and cannot be trusted for preallocation.
+    let mut intervals = Vec::new();
 
     for _ in 0..interval_count {
         // ioffset
